@@ -57,7 +57,7 @@ def _region_fn(findings: list[dict], kernel: str, shape: dict):
                 continue
             sp = f.get("shape")
             ns = dict(AND=core.AND, OR=core.OR, NOT=core.NOT, IMPLIES=core.IMPLIES,
-                      shape=shape, label=label, abs=abs, True_=True)
+                      shape=shape, label=label, abs=abs, True_=True, len=len, all=all, any=any, set=set, tuple=tuple)
             if sp is not None and not eval(sp, {"__builtins__": {}}, ns):
                 continue
             ns.update({k.replace("/", "_").replace(".", "_").replace("#", "_"): d["proxy"] for k, d in inp.decl.items()})
